@@ -12,6 +12,7 @@ import (
 
 	"github.com/echovault/sugardb/internal/modules/set"
 	"github.com/echovault/sugardb/internal/modules/sorted_set"
+	"github.com/echovault/sugardb/internal/raft"
 	"github.com/echovault/sugardb/internal/verif"
 )
 
@@ -277,4 +278,28 @@ func (server *SugarDB) VerifACLUsers() []VerifUser {
 		out = append(out, v)
 	}
 	return out
+}
+
+// VerifRaftStats is the replication state of this node (zero value when not in a cluster).
+type VerifRaftStats = raft.VerifStats
+
+// VerifRaft reads the node's replication state.
+func (server *SugarDB) VerifRaft() VerifRaftStats {
+	if !server.isInCluster() {
+		return VerifRaftStats{}
+	}
+	return server.raft.VerifStats()
+}
+
+// VerifRaftTransfer asks this node, if it is the leader, to hand leadership to another voter.
+func (server *SugarDB) VerifRaftTransfer() error { return server.raft.VerifTransfer() }
+
+// VerifRaftBarrier waits until this node (the leader) has applied every committed entry.
+func (server *SugarDB) VerifRaftBarrier() error { return server.raft.VerifBarrier() }
+
+// VerifRaftStop stops this node's raft instance and leaves the gossip cluster.
+func (server *SugarDB) VerifRaftStop() error {
+	err := server.raft.VerifStop()
+	server.memberList.MemberListShutdown()
+	return err
 }
